@@ -613,7 +613,10 @@ class SymEngine:
 
                 status = "exception"
                 exc_name = type(e).__name__
-                tb = traceback.format_exc(limit=-6)
+                try:
+                    tb = traceback.format_exc(limit=-6)
+                except Exception:  # noqa: BLE001 - str(e) itself may raise (pint formats units lazily)
+                    tb = "<traceback unavailable: formatting the exception raised>"
                 try:
                     md = self._model_dict(self._ensure_model())
                 except PathAbort:
@@ -625,7 +628,7 @@ class SymEngine:
                             "key": None,
                             "model": md,
                             "obligation": "no exception",
-                            "detail": (str(e)[:300] + "\n" + tb[-1500:]),
+                            "detail": (_safe_str(e)[:300] + "\n" + tb[-1500:]),
                         }
                     )
                     self.stats.sat += 1
@@ -673,6 +676,13 @@ class SymEngine:
             self.solver.pop()
         summary["wall_s"] = time.perf_counter() - t_start
         return summary
+
+
+def _safe_str(e):
+    try:
+        return str(e)
+    except Exception as e2:  # noqa: BLE001
+        return f"<{type(e).__name__}: str() raised {type(e2).__name__}>"
 
 
 def _eval_bool(m, e):
@@ -803,5 +813,8 @@ class ConcEngine:
         except Exception as e:  # noqa: BLE001
             import traceback
 
-            self.exc_detail = traceback.format_exc(limit=-5)
+            try:
+                self.exc_detail = traceback.format_exc(limit=-5)
+            except Exception:  # noqa: BLE001
+                self.exc_detail = "<traceback unavailable>"
             return "exception", type(e).__name__
